@@ -68,10 +68,16 @@ def scene(rng, k1=None, k2=None, placement=None):
     k1 = k1 or str(rng.choice(BODIES)); k2 = k2 or str(rng.choice(BODIES))
     sc = float(rng.choice([0.1, 0.15, 0.3]))
     p1 = body_params(rng, k1, sc); p2 = body_params(rng, k2, sc)
-    placement = placement or str(rng.choice(["general", "aligned", "disjoint", "general"], p=[.4, .3, .1, .2]))
-    if placement == "aligned":
+    placement = placement or str(rng.choice(["general", "aligned", "disjoint", "aligned-tilt"], p=[.5, .25, .1, .15]))
+    if placement in ("aligned", "aligned-tilt"):
         R1 = np.eye(3) if rng.random() < 0.6 else gen.rand_rot(rng, "perm")
         R2 = np.eye(3) if rng.random() < 0.6 else gen.rand_rot(rng, "perm")
+        if placement == "aligned-tilt":
+            # a box settling / rocking on a box: faces nearly, but not exactly, parallel (tilt 1e-7 .. 1e-3 rad)
+            w = gen.rand_dir(rng) * 10 ** rng.uniform(-7, -3)
+            K = np.array([[0, -w[2], w[1]], [w[2], 0, -w[0]], [-w[1], w[0], 0]])
+            Q, _ = np.linalg.qr(np.eye(3) + K); Q = Q * np.sign(np.diag(Q))
+            R2 = Q @ R2
         c1 = rng.integers(-2, 3, size=3).astype(float) * sc * 0.5
         T1 = O.pose(R1, c1)
         o1 = body_oracle(k1, p1, T1)
